@@ -9,9 +9,9 @@ Close Scope Z_scope.
 Open Scope nat_scope.
 
 (* content = keyed function of the absolute byte index (same function in the Go harness) *)
-Definition kbyte (i : nat) : byte :=
-  let z := Z.of_nat i in ((z * 131 + (z / 251) * 17 + 7) mod 256)%Z.
-Definition kb (start n : nat) : list byte := map kbyte (seq start n).
+Definition kbyte (z : Z) : byte := ((z * 131 + (z / 251) * 17 + 7) mod 256)%Z.
+Fixpoint zseq (s : Z) (n : nat) : list Z := match n with O => [] | S k => s :: zseq (s + 1)%Z k end.
+Definition kb (start : Z) (n : nat) : list byte := map kbyte (zseq start n).
 (* what "other" streams scribble into the slots they hold *)
 Definition fb (tag n : nat) : list byte :=
   map (fun j => ((Z.of_nat tag * 7 + Z.of_nat j * 13 + 101) mod 256)%Z) (seq 0 n).
